@@ -10,7 +10,7 @@ is the closure of the body's step relation iterated `|w|+1` times (a repetition
 that makes no progress adds nothing, so more rounds cannot add positions).
 
 Pattern PARSING is not modelled: the engine (`regexp.Compile` / `MatchString`) is a
-parameter of `filterMembers`; the formal semantics here is what the anchoring
+parameter of `filterMembers` / `compileAnchored`; the formal semantics here is what the anchoring
 theorem (C26) is about, and it is validated against Go's `regexp` by a
 differential on generated ASTs printed in RE2 syntax.
 -/
@@ -77,20 +77,29 @@ structure Member where
   tags : List (String × String)
   deriving Repr, Inhabited, DecidableEq
 
-/-- The pattern engine as `filterMembers` uses it: `compiles p` = `regexp.Compile(fmt.Sprintf(template, p))`
-succeeds, `matchStr p v` = that compiled expression's `MatchString(v)`. -/
+/-- The pattern engine (`regexp`) as the filter uses it, per filter expression `p`:
+`validAlone p` = `regexp.Compile(p)` succeeds; `compilesWrapped p` =
+`regexp.Compile(fmt.Sprintf("^(?:%s)$", p))` succeeds; `matchStr p v` = that wrapped
+expression's `MatchString(v)`. -/
 structure Engine where
-  compiles : String → Bool
+  validAlone : String → Bool
+  compilesWrapped : String → Bool
   matchStr : String → String → Bool
+
+/-- `compileAnchored(expr)`: validate the pattern on its own, then compile it inside the
+anchoring template (`true` = a compiled expression is returned, `false` = an error). -/
+def compileAnchored (e : Engine) (p : String) : Bool :=
+  if !e.validAlone p then false          -- if _, err := regexp.Compile(expr); err != nil { return nil, err }
+  else e.compilesWrapped p               -- return regexp.Compile(fmt.Sprintf("^(?:%s)$", expr))
 
 def tagValue (m : Member) (t : String) : String := (alookup m.tags t).getD ""     -- m.Tags[tag]
 
 /-- `filterMembers(members, tags, status, name)`: `none` = error (no list). -/
 def filterMembers (e : Engine) (ms : List Member) (tags : List (String × String)) (status name : String) :
     Option (List Member) :=
-  if !(tags.all fun tp => e.compiles tp.2) then none          -- pre-compile all tag expressions
-  else if !e.compiles status then none
-  else if !e.compiles name then none
+  if !(tags.all fun tp => compileAnchored e tp.2) then none          -- pre-compile all tag expressions
+  else if !compileAnchored e status then none
+  else if !compileAnchored e name then none
   else some (ms.filter fun m =>
     (tags.all fun tp => e.matchStr tp.2 (tagValue m tp.1)) &&
     (status == "" || e.matchStr status m.status) &&
